@@ -282,3 +282,13 @@ Check solvers_agree : forall (A : Arith), FieldLaws A -> LUPrim.PivLaws A -> for
 Print Assumptions solvers_agree.
 Example solvers_agree_nonvacuous : is_ok (solve_basic M3 b3) = true /\ is_ok (solve_lu M3 b3) = true /\ solve_basic M3 b3 = solve_lu M3 b3.
 Proof. vm_compute. repeat split; reflexivity. Qed.
+
+(* ---- tie to the source by proof (package r2c): the functions regenerated from /repo/src on this run by the Rust-subset ->
+   Gallina translator (driver/rust2coq.py -> gen/Src*.v) are equal, for all arguments, to the hand-written model functions
+   the theorems above are about (Proofs/SrcEq*.v).  A change of a loop bound, index, operator or statement order in the
+   source breaks the corresponding src_<function> lemma and with it this obligation. *)
+From OV Require Proofs.SrcEqSolve.
+Theorem model_is_source_C01_Solve : forall A : Arith, @SrcEqSolve.model_is_source_Solve A.
+Proof. intros A. exact SrcEqSolve.model_is_source_Solve_lemma. Qed.
+Check model_is_source_C01_Solve : forall A : Arith, @SrcEqSolve.model_is_source_Solve A.
+Print Assumptions model_is_source_C01_Solve.
